@@ -40,9 +40,18 @@ def to_z3(x):
     raise TypeError("cannot lift %r to z3" % (x,))
 
 
+_PINF, _NINF = float("inf"), float("-inf")
+
+
+def is_inf(x):
+    return isinstance(x, float) and (x == _PINF or x == _NINF)
+
+
 def num(x):
-    """Concrete floats become exact Fractions of their decimal literal (A-REAL)."""
+    """Concrete floats become exact Fractions of their decimal literal (A-REAL); infinities stay floats."""
     if isinstance(x, float):
+        if is_inf(x):
+            return x
         return Fraction(repr(x))
     return x
 
@@ -165,6 +174,9 @@ def _unify(a, b):
 
 def eq(a, b):
     """Structural equality (tuples/lists componentwise)."""
+    if is_inf(a) or is_inf(b):
+        # a symbolic number is finite: it equals no infinity
+        return (a == b) if (is_inf(a) and is_inf(b)) else (False if (is_z3(a) or is_z3(b)) else a == b)
     if isinstance(a, (tuple, list)) or isinstance(b, (tuple, list)):
         if not (isinstance(a, (tuple, list)) and isinstance(b, (tuple, list))):
             return False
@@ -212,6 +224,8 @@ def Max(*xs):
 
 
 def lt(a, b):
+    if (is_inf(a) or is_inf(b)) and any_z3(a, b):
+        return (a == _NINF) if is_inf(a) else (b == _PINF)
     if any_z3(a, b):
         a, b = _unify(a, b)
         return a < b
@@ -219,6 +233,8 @@ def lt(a, b):
 
 
 def le(a, b):
+    if (is_inf(a) or is_inf(b)) and any_z3(a, b):
+        return (a == _NINF) if is_inf(a) else (b == _PINF)
     if any_z3(a, b):
         a, b = _unify(a, b)
         return a <= b
